@@ -121,7 +121,16 @@ func ExploreDouble(h *History, d *Decoded, ops []Op, root, dir, tier string) []D
 			res = append(res, dc)
 			continue
 		}
-		ops2, code, err := Trace([]string{self(), "_recover", fmt.Sprint(InstanceID2), d1}, d1, "", "", childEnv())
+		existing := map[string]bool{}
+		filepath.Walk(d1, func(p string, fi os.FileInfo, err error) error {
+			if err == nil && p != d1 {
+				if r, e := filepath.Rel(d1, p); e == nil {
+					existing[r] = true
+				}
+			}
+			return nil
+		})
+		ops2, code, err := TraceFrom([]string{self(), "_recover", fmt.Sprint(InstanceID2), d1}, d1, "", "", childEnv(), existing)
 		if err != nil {
 			dc.Err = "trace recovery: " + err.Error()
 			res = append(res, dc)
@@ -200,21 +209,28 @@ func (h *History) DoubleTerm(d *Decoded, dbl []DoubleCrash) (string, []FailRow, 
 		var obs []string
 		for i, j := range dc.Js {
 			o := h.ToObs(d, dc.K1, dc.Outs[i])
-			// oracle relative to the first crash point
+			// the oracles see the combined trace: K1 calls of the run, then j calls of the first recovery
+			d3 := &Decoded{Evs: append(append([]Ev{}, d.Evs[:dc.K1]...), evs2[:j]...), Files: d.Files, FID: d.FID, WID: d2.WID, NWal: d2.NWal}
+			for fi := range d3.Files {
+				// files created after K1 in the run do not exist in this image
+				if d3.Files[fi].CreatAt >= dc.K1 {
+					f := d3.Files[fi]
+					f.CreatAt, f.HdrAt, f.DoneAt = 1<<30, -1, -1
+					d3.Files = append(append([]FileInfo{}, d3.Files[:fi]...), append([]FileInfo{f}, d3.Files[fi+1:]...)...)
+				}
+			}
+			o.K = dc.K1 + j
 			var fl []Verdict
-			fl = append(fl, h.OracleC01(d, o)...)
-			fl = append(fl, h.OracleC02(d, o)...)
+			fl = append(fl, h.OracleC01(d3, o)...)
+			fl = append(fl, h.OracleC02(d3, o)...)
 			if o.Class == 0 {
 				for _, f := range dc.Outs[i].Files {
+					// a file in state replayed-not-deleted is renamed *.tmp by the next start-up ("No Replay Needed" is a
+					// ReplayError{Cont}); it is never looked at again.  Any other leftover *.walfile is a failure.
 					if f != "OWN" && !strings.HasSuffix(f, ".tmp") {
 						fl = append(fl, Verdict{false, "", fmt.Sprintf("after the second start-up the WAL file %s is still there", f)})
 					}
-					if strings.HasSuffix(f, ".tmp") {
-						fl = append(fl, Verdict{false, "", fmt.Sprintf("a WAL file was moved aside: %s", f)})
-					}
 				}
-			} else {
-				fl = append(fl, Verdict{false, "", "second start-up fails: " + o.Err})
 			}
 			for _, v := range fl {
 				fails = append(fails, FailRow{dc.K1*100000 + j, v.Class, fmt.Sprintf("first crash k1=%d, second crash after %d calls of the recovery: %s", dc.K1, j, v.Detail)})
